@@ -19,7 +19,7 @@ From SPV Require Export Base.Str Model.OptStr.
 Record hfield := mkhf {
   hf_fw : fw;                    (* destination path of the parent, name, prefix, aliases (Model/OptStr.v) *)
   hf_init : bool;                (* dataclasses.field(init=...) *)
-  hf_cmd : bool;                 (* field.metadata.get("cmd") when present, else the `get` default *)
+  hf_cmd : option bool;          (* field.metadata["cmd"]; None = the key is absent *)
   hf_help : string;              (* help= / metadata["help"]; "" = none *)
   hf_default : option string     (* definition default as `%(default)s` prints it; None = None / no default *)
 }.
@@ -73,13 +73,15 @@ Record helprun := mkrun { r_end : err; r_printed : option (stream * list group) 
 
 Section WithFacts.
   Variable skip : bool -> bool -> bool.                        (* Gen: `not field.init or field.metadata.get("cmd", D) is False` *)
+  Variable cmd_default : bool.                                 (* Gen: D, the value `get` returns when the key is absent *)
   Variable arg_help : string -> option string -> option string. (* Gen: the `help=` keyword chosen by get_arg_options *)
   Variable token : string.                                     (* Gen: TEMPORARY_TOKEN *)
   Variable adds_default strips_token : bool.                   (* Gen: formatter bases / _get_help_string *)
   Variable preserved : bool.                                   (* Gen (FactsConflicts): order-preserving de-duplication *)
   Variable perm : list string -> list string.                  (* iteration order of a set under this run's hash seed *)
 
-  Definition exposedb (f : hfield) : bool := negb (skip (hf_init f) (hf_cmd f)).
+  Definition exposedb (f : hfield) : bool :=
+    negb (skip (hf_init f) (match hf_cmd f with Some b => b | None => cmd_default end)).
 
   (* FieldWrapper.option_strings WITH the order of equal-length spellings *)
   Definition ordered_opts (c : cfg) (f : fw) : list string :=
